@@ -54,3 +54,52 @@ package accounts
 //@   ensures callable: vErr(auth, metaData) == nil &&
 //@       eErr(access, vUser(auth, metaData), reqgraph(req), old(MethodMap)[info.FullMethod]) == nil ==>
 //@       result.0 == hres0(handler, ctx, req) && result.1 == hres1(handler, ctx, req)
+
+// Streaming methods. A server-streaming handler may run only on a stream that replays
+// the first request (StreamOutWrapper) after Enforce succeeded for that request's
+// graph and the method's operation class; the client-streaming handler (BulkAdd) only
+// on a BulkWriteFilter bound to the validated user and the same access policy, which
+// then checks every element (see RecvMsg below).
+
+//@ extern param:accounts::streamAuthInterceptor$1:handler
+//@   params hsrv hstream
+//@   pure
+//@   requires authenticated: vErr(auth, metaData) == nil
+//@   requires mediated: (exposedServerStream(info.FullMethod) ==>
+//@         dyn(hstream, "*StreamOutWrapper[gripql.GraphQuery]") && has(MethodMap, info.FullMethod) &&
+//@         eErr(access, vUser(auth, metaData), ptr(hstream, "*StreamOutWrapper[gripql.GraphQuery]").Request.Graph, MethodMap[info.FullMethod]) == nil)
+//@      && (exposedClientStream(info.FullMethod) ==>
+//@         dyn(hstream, "*BulkWriteFilter") && ptr(hstream, "*BulkWriteFilter").User == vUser(auth, metaData) &&
+//@         ptr(hstream, "*BulkWriteFilter").Access == access && ptr(hstream, "*BulkWriteFilter").SS == ss)
+//@   ensures res: result == hsres(handler, hsrv, hstream)
+
+//@ func streamAuthInterceptor$1
+//@   property C05
+//@   option prelude=auth
+//@   option load=gripql
+//@   option globals=accounts
+//@   nopanic
+//@   requires info: info != nil && ss != nil
+//@   requires collab: auth != nil && access != nil
+//@   requires exposed: exposedServerStream(info.FullMethod) || exposedClientStream(info.FullMethod)
+//@   requires flags: (info.IsServerStream <==> exposedServerStream(info.FullMethod)) &&
+//@       (info.IsClientStream <==> exposedClientStream(info.FullMethod))
+//@   ensures unauthenticated: vErr(auth, metaData) != nil ==> result != nil && codeOf(result) == codes.Unauthenticated
+
+// Per-element filter of streamed bulk writes: an element is handed to the server only
+// if the policy grants the bound user Write on the graph that element names.
+//@ func (*BulkWriteFilter).RecvMsg
+//@   property C05 C18
+//@   option prelude=auth
+//@   option load=gripql
+//@   requires nonnil: bw != nil
+//@   ensures permitted: result == nil ==> dyn(m, "*gripql.GraphElement") &&
+//@       eErr(bw.Access, bw.User, ptr(m, "*gripql.GraphElement").Graph, "write") == nil
+
+// The casbin-backed policy: the decision is exactly casbin's decision for
+// (user, graph, operation) -- no other state takes part in it.
+//@ func (*CasbinAccess).Enforce
+//@   property C05
+//@   option prelude=auth
+//@   requires nonnil: ce != nil
+//@   ensures decides: (result == nil) <==> casbinAllows(ce.encforcer, AStr(user), AStr(graph), AStr(operation))
